@@ -150,6 +150,7 @@ pub enum Op {
     DeleteGroup { idx: u8 },
     RestartKey { off: bool },
     CorruptCiphertext,
+    SendSibling { n: u32, seq: u64 },
     Checkpoint,
 }
 
@@ -182,6 +183,7 @@ impl Op {
             Op::DeleteGroup { .. } => "delete_group",
             Op::RestartKey { .. } => "restart_wrong_key",
             Op::CorruptCiphertext => "corrupt_ciphertext",
+            Op::SendSibling { .. } => "send_sibling",
             Op::Checkpoint => "checkpoint",
         }
     }
@@ -270,6 +272,11 @@ pub struct World {
     pub stream_name: String,
     pub topic_name: String,
     pub len_at_restart: BTreeMap<u32, u64>,
+    /// a second topic (id 2) in the same stream that holds data of its own (sums, isolation of limits)
+    pub sibling: bool,
+    pub sib_msgs: u64,
+    /// how the last stop was done (for signatures): "" before any restart
+    pub last_stop: &'static str,
 }
 
 pub fn viol(property: &str, clause: &str, trigger: &str, witness: Value) -> Stop {
@@ -330,11 +337,24 @@ impl World {
             stream_name: "s1".into(),
             topic_name: "t1".into(),
             len_at_restart: BTreeMap::new(),
+            sibling: false,
+            sib_msgs: 0,
+            last_stop: "",
         }
     }
 
     pub fn event(&mut self, name: &str) {
         *self.ev.entry(name.to_string()).or_insert(0) += 1;
+    }
+    /// confirmation mode for signatures; after a restart in no-wait mode also how the server was stopped
+    pub fn mode_tag(&self, after_restart: bool) -> String {
+        if !self.cfg.no_wait {
+            "wait".into()
+        } else if after_restart && !self.last_stop.is_empty() {
+            format!("nowait-{}", self.last_stop)
+        } else {
+            "nowait".into()
+        }
     }
     pub fn eval(&mut self, clause: &str) {
         *self.evals.entry(clause.to_string()).or_insert(0) += 1;
@@ -355,6 +375,7 @@ impl World {
             "process_cfg": self.cache.name(),
             "storage_cfg": self.cfg,
             "topic_cfg": self.tcfg,
+            "sibling": self.sibling,
             "ops": self.ops,
             "first_bad": {"i": self.ops.len().saturating_sub(1), "detail": detail},
             "server_panics": take_server_panics(),
@@ -411,6 +432,36 @@ impl World {
                 .await?
                 .map_err(|e| Stop::Inconclusive(format!("create_group: {e}")))?;
         }
+        if self.sibling {
+            timed(
+                "create_topic",
+                c.create_topic(&self.stream, "sibling", 1, CompressionAlgorithm::None, None, Some(2), IggyExpiry::NeverExpire, MaxTopicSize::Unlimited),
+            )
+            .await?
+            .map_err(|e| Stop::Inconclusive(format!("create sibling topic: {e}")))?;
+            self.op_send_sibling(8, 0).await?;
+        }
+        Ok(())
+    }
+
+    /// data for the sibling topic: it must never influence (or be influenced by) the topic under test
+    async fn op_send_sibling(&mut self, n: u32, seq: u64) -> R<()> {
+        if !self.sibling {
+            return Ok(());
+        }
+        let mut msgs = vec![];
+        for i in 0..n {
+            let pl = format!("{:x}/sib{}/{}|{}", self.hist & 0xffff_ffff, seq, i, "s".repeat(480));
+            msgs.push(Message::new(Some(((self.hist as u128) << 64) | (0x5_0000_0000u128) | ((seq as u128) << 12) | (i as u128 + 1)), Bytes::from(pl), None));
+        }
+        let two = Identifier::numeric(2).unwrap();
+        let r = timed("send_sibling", self.c().send_messages(&self.stream, &two, &Partitioning::partition_id(1), &mut msgs)).await?;
+        if let Err(e) = r {
+            let w = json!({"send_to_sibling_topic": n, "error": e.to_string()});
+            return Err(viol("C06", "valid-refused", "send-to-sibling-topic", self.witness(w)));
+        }
+        self.sib_msgs += n as u64;
+        self.event("sibling_topic_has_data");
         Ok(())
     }
 
@@ -597,7 +648,8 @@ impl World {
                 Ok(r) => r,
                 Err(e) => {
                     let w = json!({"partition": part, "scan_from": start, "error": e.to_string()});
-                    return Err(viol("C02", "slice", if self.cfg.no_wait { "poll-error/nowait" } else { "poll-error/wait" }, self.witness(w)));
+                    let tag = format!("poll-error/{}", self.mode_tag(true));
+                    return Err(viol("C02", "slice", &tag, self.witness(w)));
                 }
             };
             for m in &r.messages {
@@ -647,7 +699,7 @@ impl World {
             self.eval("C02:slice");
             if seen != exp {
                 let kind = classify(&seen, &exp);
-                let mode = if self.cfg.no_wait { "nowait" } else { "wait" };
+                let mode = self.mode_tag(why == "after-restart");
                 let w = json!({"why": why, "partition": id, "scan_expected": compress(&exp), "scan_got": compress(&seen), "cur": cur});
                 let (prop, clause) = if why == "after-restart" { ("C03", "restart-scan") } else { ("C02", "slice") };
                 let kind = if self.cfg.no_wait && !(seen.len() < exp.len() && exp.starts_with(&seen)) { "not-prefix-inflight" } else { kind };
@@ -677,8 +729,27 @@ impl World {
                 Ok(Some(s)) => s,
                 other => return Err(Stop::Inconclusive(format!("get_stream: {other:?}"))),
             };
+            let two = Identifier::numeric(2).unwrap();
+            let sib = if self.sibling {
+                match timed("get_topic", self.c().get_topic(&self.stream, &two)).await? {
+                    Ok(Some(x)) => Some(x),
+                    other => return Err(Stop::Inconclusive(format!("get sibling: {other:?}"))),
+                }
+            } else {
+                None
+            };
+            let (sib_m, sib_s, sib_seg) = sib.as_ref().map(|x| (x.messages_count, x.size.as_bytes_u64(), x.partitions.iter().map(|p| p.segments_count).sum::<u32>())).unwrap_or((0, 0, 0));
+            let ntop = if self.sibling { 2 } else { 1 };
+            if self.sibling {
+                self.eval("C16:sibling-untouched");
+                if sib_m != self.sib_msgs {
+                    let w = json!({"why": why, "sibling_topic_messages": sib_m, "sent_to_sibling": self.sib_msgs});
+                    let mode = self.mode_tag(why == "after-restart");
+                    return Err(viol("C16", "sibling-untouched", &format!("{why}/{mode}"), self.witness(w)));
+                }
+            }
             self.eval("C16:stream-sum");
-            if sd.messages_count != t.messages_count || sd.size != t.size || sd.topics_count != 1 {
+            if sd.messages_count != t.messages_count + sib_m || sd.size.as_bytes_u64() != t.size.as_bytes_u64() + sib_s || sd.topics_count != ntop {
                 let w = json!({"why": why, "stream": {"messages": sd.messages_count, "size": sd.size.as_bytes_u64(), "topics": sd.topics_count},
                     "topic": {"messages": t.messages_count, "size": t.size.as_bytes_u64()}});
                 return Err(viol("C16", "stream-sum", why, self.witness(w)));
@@ -691,16 +762,16 @@ impl World {
             let segs: u32 = t.partitions.iter().map(|p| p.segments_count).sum();
             let groups = self.groups_alive.iter().filter(|g| **g).count() as u32;
             let ok = st.streams_count == 1
-                && st.topics_count == 1
-                && st.partitions_count == t.partitions_count
-                && st.segments_count == segs
-                && st.messages_count == t.messages_count
-                && st.messages_size_bytes == t.size
+                && st.topics_count == ntop
+                && st.partitions_count == t.partitions_count + if self.sibling { 1 } else { 0 }
+                && st.segments_count == segs + sib_seg
+                && st.messages_count == t.messages_count + sib_m
+                && st.messages_size_bytes.as_bytes_u64() == t.size.as_bytes_u64() + sib_s
                 && st.consumer_groups_count == groups;
             if !ok {
                 let w = json!({"why": why, "stats": {"streams": st.streams_count, "topics": st.topics_count, "partitions": st.partitions_count, "segments": st.segments_count,
                     "messages": st.messages_count, "size": st.messages_size_bytes.as_bytes_u64(), "groups": st.consumer_groups_count},
-                    "expected": {"streams": 1, "topics": 1, "partitions": t.partitions_count, "segments": segs, "messages": t.messages_count, "size": t.size.as_bytes_u64(), "groups": groups}});
+                    "expected": {"streams": 1, "topics": ntop, "partitions": t.partitions_count + if self.sibling { 1 } else { 0 }, "segments": segs + sib_seg, "messages": t.messages_count + sib_m, "size": t.size.as_bytes_u64() + sib_s, "groups": groups}});
                 return Err(viol("C16", "stats", why, self.witness(w)));
             }
         }
@@ -798,6 +869,7 @@ impl World {
             Op::GetOffset { part, who } => self.op_get_offset(part, who).await,
             Op::DeleteOffset { part, who } => self.op_delete_offset(part, who).await,
             Op::Checkpoint => self.checkpoint("checkpoint").await,
+            Op::SendSibling { n, seq } => self.op_send_sibling(n, seq).await,
             Op::AdvanceClock { us } => {
                 iggy::utils::timestamp::verif_clock::advance_micros(us);
                 self.clock_us += us;
@@ -1046,7 +1118,8 @@ impl World {
             Ok(g) => g,
             Err(err) => {
                 let w = json!({"poll": format!("{kind:?}"), "value": value, "count": count, "error": err.to_string()});
-                return Err(viol("C02", "slice", if self.cfg.no_wait { "poll-error/nowait" } else { "poll-error/wait" }, self.witness(w)));
+                let tag = format!("poll-error/{}", self.mode_tag(true));
+                    return Err(viol("C02", "slice", &tag, self.witness(w)));
             }
         };
         let ctx = json!({"poll": format!("{kind:?}"), "value": value, "count": count, "who": format!("{who:?}"), "got": Self::describe(&got.messages)});
@@ -1150,7 +1223,8 @@ impl World {
                 Ok(g) => g,
                 Err(err) => {
                     let w = json!({"ctx": ctx, "error": err.to_string()});
-                    return Err(viol("C02", "slice", if self.cfg.no_wait { "poll-error/nowait" } else { "poll-error/wait" }, self.witness(w)));
+                    let tag = format!("poll-error/{}", self.mode_tag(true));
+                    return Err(viol("C02", "slice", &tag, self.witness(w)));
                 }
             };
         }
@@ -1330,6 +1404,7 @@ impl World {
             }
         }
         self.client = None;
+        self.last_stop = if mode == RestartMode::Shutdown { "shutdown" } else { "flushall" };
         let inst = self.inst.take().unwrap();
         let stop = timed("stop", inst.stop(mode == RestartMode::Shutdown)).await?;
         if let Err(e) = stop {
@@ -1382,8 +1457,8 @@ impl World {
             if pa.current_offset != pb.current_offset {
                 let w = json!({"partition": pb.id, "current_offset_before": pb.current_offset, "after": pa.current_offset,
                     "messages_before": pb.messages_count, "messages_after": pa.messages_count});
-                let mode = if self.cfg.no_wait { "nowait" } else { "wait" };
-                return Err(viol("C03", "restart-current-offset", mode, self.witness(w)));
+                let mode = self.mode_tag(true);
+                return Err(viol("C03", "restart-current-offset", &mode, self.witness(w)));
             }
             if self.deep && !self.cfg.no_wait {
                 self.eval("C16:restart-same-size");
@@ -1396,7 +1471,7 @@ impl World {
             if pa.messages_count != pb.messages_count || pa.segments_count != pb.segments_count {
                 let w = json!({"partition": pb.id, "before": {"messages": pb.messages_count, "segments": pb.segments_count},
                     "after": {"messages": pa.messages_count, "segments": pa.segments_count}});
-                let mode = if self.cfg.no_wait { "nowait" } else { "wait" };
+                let mode = self.mode_tag(true);
                 return Err(viol("C16", "restart-same-count", &format!("partition/{mode}"), self.witness(w)));
             }
         }
